@@ -277,4 +277,42 @@ fire("c03-payblen-bytes", ["C03", "C06"], MSG, "self._payblen = len(self._payloa
 silent("c03-value-style", ["C03"], [(MSG, "            if atyp == INT and bits & msb:  # 2's compliment -ve int\n                val -= 1 << asiz\n", "            if atyp == INT and bits >= msb:  # 2's compliment -ve int\n                val = val - (1 << asiz)\n")], "equivalent sign handling")
 silent("c03-negate-style", ["C03"], [(MSG, "                    val *= -1\n", "                    val = -val\n")], "equivalent negation")
 
+fire("c03-offset-add-dropped", ["C03"], MSG, "        offset += asiz\n\n        # add special attributes", "        # add special attributes", "offset never advances")
+fire("c03-group-rebinding-dropped", ["C03"], MSG, "            for anamg in gdict:\n                offset, index = self._set_attribute(anamg, gdict, offset, index)\n\n        index.pop()", "            for anamg in gdict:\n                self._set_attribute(anamg, gdict, offset, index)\n\n        index.pop()", "group results discarded: every group field read from the same bits")
+fire("c03-index-i", ["C03"], MSG, "            index[-1] = i + 1\n", "            index[-1] = i\n", "group indices start at 0: first occurrence un-indexed")
+fire("c03-suffix-3d", ["C03", "C18"], MSG, '                anami += f"_{i:02d}"', '                anami += f"_{i:03d}"')
+fire("c03-pop-missing", ["C03"], MSG, "        index.pop()  # remove this (nested) group index\n", "")
+fire("c03-plusone-wrong-field", ["C03", "C10", "C18"], MSG, '            if anam == "IDF035":  # 4076_201 range is N-1', '            if anam == "IDF036":  # 4076_201 range is N-1')
+fire("c03-nested-suffix-index", ["C03"], MSG, '                    anam += f"_{index[i]:02d}"', '                    anam += f"_{index[-1]:02d}"', "nested counter looked up under the innermost index")
+fire("c03-optional-neq", ["C03"], MSG, "        if getattr(self, anam) == con:  # if condition is met...", "        if getattr(self, anam) >= con:  # if condition is met...")
+fire("c03-optional-resets-offset", ["C03"], MSG, "                offset, index = self._set_attribute(anamg, gdict, offset, index)\n\n        return offset, index\n\n    def _set_attribute_group", "                offset, index = self._set_attribute(anamg, gdict, offset, index)\n        else:\n            offset += 0 * len(gdict) + 1\n\n        return offset, index\n\n    def _set_attribute_group", "absent optional group consumes a bit")
+fire("c03-dispatch-swapped", ["C03"], MSG, "            if isinstance(gtyp, tuple):  # conditional group of attributes", "            if not isinstance(gtyp, tuple):  # conditional group of attributes")
+fire("c03-driver-offset-1", ["C03"], MSG, "        offset = 0  # payload offset in bits\n", "        offset = 1  # payload offset in bits\n")
+fire("c03-harmonic-formula", ["C03"], MSG, "nc = int(((N + 1) * (N + 2) / 2) - ((N - M) * (N - M + 1) / 2))", "nc = int(((N + 1) * (N + 2) / 2) - ((N - M) * (N - M - 1) / 2))")
+fire("c03-harmonic-ns", ["C03"], MSG, "ns = int(nc - (N + 1))", "ns = int(nc - N)")
+fire("c03-harmonic-layer-1", ["C03"], MSG, 'N = getattr(self, f"IDF037_{i:02d}") + 1', 'N = getattr(self, "IDF037_01") + 1', "coefficient counts always taken from the first layer")
+fire("c03-extra-public-attr", ["C03"], MSG, "        offset += asiz\n\n        # add special attributes", "        offset += asiz\n        setattr(self, \"LASTFIELD\", anam)\n\n        # add special attributes", "an undocumented public attribute appears on every message")
+fire("c03-payload-read-elsewhere", ["C03"], MSG, "        if self._unknown:\n            stg += \", Not_Yet_Implemented\"", "        if self._unknown or self._payload[-1:] == b\"\\x00\":\n            stg += \", Not_Yet_Implemented\"", "bytes after the last field influence the string form")
+fire("c03-str-indexed", ["C03"], MSG, '            setattr(self, anam, getattr(self, anam, "") + val)', '            setattr(self, anami, getattr(self, anami, "") + val)', "text units no longer joined into one attribute")
+silent("c03-group-enumerate", ["C03"], [(MSG, "        for i in range(gsiz):\n            index[-1] = i + 1\n", "        for rep in range(gsiz):\n            index[-1] = rep + 1\n")], "loop variable renamed")
+
+# ----------------------------------------------------------------------------- C06
+fire("c06-shift-saturates", ["C06", "C03"], MSG, "self._payloadi >> (self._payblen - offset - asiz)", "self._payloadi >> max(0, self._payblen - offset - asiz)", "reads past the end return low bits instead of failing (survives the test-suite)")
+fire("c06-swallow-valueerror", ["C06"], MSG, "        except Exception as err:  # pragma: no cover\n            raise RTCMTypeError(", "        except ValueError:  # pragma: no cover\n            return\n        except Exception as err:  # pragma: no cover\n            raise RTCMTypeError(", "truncated messages returned as if complete")
+fire("c06-handler-narrow", ["C06"], MSG, "        except Exception as err:  # pragma: no cover", "        except (KeyError, AttributeError) as err:  # pragma: no cover", "ValueError from the bounds failure escapes as a foreign exception")
+fire("c06-single-try", ["C06"], MSG, "            bits = self._payloadi >> (self._payblen - offset - asiz) & ((1 << asiz) - 1)\n", "            try:\n                bits = self._payloadi >> (self._payblen - offset - asiz) & ((1 << asiz) - 1)\n            except ValueError:\n                bits = 0\n", "fields past the end decode as zero")
+fire("c06-payblen-padded", ["C06", "C03"], MSG, "self._payblen = len(self._payload) * 8", "self._payblen = (len(self._payload) + 1) * 8")
+fire("c06-conditional-raise", ["C06"], MSG, "            raise RTCMTypeError(\n                (\n                    f\"Error processing attribute '{anam}' \"\n                    f\"in message type {self.identity} {err}\"\n                )\n            ) from err", "            if not isinstance(err, ValueError):\n                raise RTCMTypeError(f\"Error processing attribute '{anam}' {err}\") from err")
+silent("c06-explicit-guard", ["C06", "C03"], [(MSG, "            bits = self._payloadi >> (self._payblen - offset - asiz) & ((1 << asiz) - 1)\n", "            if offset + asiz > self._payblen:\n                raise ValueError(\"field extends past end of payload\")\n            bits = self._payloadi >> (self._payblen - offset - asiz) & ((1 << asiz) - 1)\n")], "explicit bounds check in addition to the shift")
+# ----------------------------------------------------------------------------- C16
+fire("c16-label-in-prn", ["C16"], MSG, "                self._satmap[nsat] = prnmap.get(idx, NA)", "                self._satmap[nsat] = prnmap.get(idx, NA) if self._labelmsm != 2 else str(idx)", "the option changes satellite labels too")
+fire("c16-keyword-dropped", ["C16"], RDR, "                labelmsm=self._labelmsm,\n", "", "reader option never reaches the message")
+fire("c16-parse-ignores", ["C16"], RDR, "return RTCMMessage(payload=payload, labelmsm=labelmsm)", "return RTCMMessage(payload=payload)")
+fire("c16-option-affects-count", ["C16"], MSG, "                sigs.append(fqc)\n                nsig += 1", "                sigs.append(fqc)\n                nsig += 1 if fqc != NA or self._labelmsm == 1 else 0", "unknown signals dropped under one option only")
+fire("c16-option-in-single", ["C16"], MSG, "            val = self._cellmap[index[0]][0]", "            val = self._cellmap[index[0]][0] if self._labelmsm != 2 else self._cellmap[index[0]][0].lstrip(\"0\")")
+fire("c16-option-in-str", ["C16"], MSG, '        stg = f"<RTCM({self.identity}, "', '        stg = f"<RTCM({self.identity}, " if self._labelmsm else "<RTCM("')
+fire("c16-second-table-lookup", ["C16"], MSG, "                fqc = sgc[1] if sigcode else sgc[0]", "                fqc = sgc[1] if sigcode else sigmap.get(idx + 1, (NA, NA))[0]", "band label taken from the next signal ID")
+fire("c16-default-mismatch", ["C16"], RDR, "        message: bytes,\n        validate: int = VALCKSUM,\n        labelmsm: int = 1,", "        message: bytes,\n        validate: int = VALCKSUM,\n        labelmsm: int = 2,")
+silent("c16-sigcode-style", ["C16", "C09"], [(MSG, "        sigcode = 0 if self._labelmsm == 2 else 1\n", "        sigcode = self._labelmsm != 2\n")], "equivalent option test")
+
 VARIANTS = V
